@@ -26,6 +26,7 @@ import (
 	"context"
 	"errors"
 	"fmt"
+	"hash/fnv"
 	"net/http"
 	"net/http/httptest"
 	"runtime"
@@ -175,6 +176,20 @@ func doCall(b breaker.Breaker, name string, cl *call, now func() time.Duration, 
 	var serr error
 	if cl.Out == oUnacc || cl.Out == oAcc {
 		serr = &scriptErr{int(errSeq.Add(1))}
+		// now and then the request's own error IS (or wraps) breaker.ErrServiceUnavailable - what a
+		// nested, open downstream breaker returns. It is an error like any other: the call was
+		// admitted, req ran once, the fallback must not run, the error comes back unchanged.
+		// (the choice is a pure function of the call's description)
+		h := fnv.New32a()
+		fmt.Fprintf(h, "%+v", *cl)
+		switch h.Sum32() % 8 {
+		case 0:
+			serr = breaker.ErrServiceUnavailable
+			kit.Obs("req_returned_ErrServiceUnavailable_itself", 1)
+		case 1:
+			serr = fmt.Errorf("downstream breaker: %w", breaker.ErrServiceUnavailable)
+			kit.Obs("req_returned_wrapped_ErrServiceUnavailable", 1)
+		}
 	}
 	r.want = serr
 	r.tok = &panicTok{int(errSeq.Add(1))}
